@@ -46,6 +46,7 @@ class CThread(object):
     self.real = None
     self.facade = None        # object returned by current_thread()
     self.steps = 0
+    self.may_hang = False     # free to stay blocked for ever
 
   def __repr__(self):
     return "<CThread %d %s %s>" % (self.idx, self.name, self.state)
@@ -199,7 +200,11 @@ class Engine(object):
       r = [t for t in self.threads if t.state == RUNNABLE]
       if r:
         return r
-      if all(t.state == DONE for t in self.threads):
+      if all(t.state == DONE or (t.may_hang and t.state == BLOCKED
+                                 and t.deadline is None)
+             for t in self.threads):
+        # (a thread the harness has declared free to wait for ever does
+        # not make the run a deadlock)
         return []
       times = [t.deadline for t in self.threads
                if t.state == BLOCKED and t.deadline is not None]
